@@ -1,5 +1,5 @@
 """Runs `bb` (blackboard client operations) and `name` scenarios on the real py_trees.blackboard."""
-from common import py_trees, Status, Obj, val_str, val_parse, err_kind
+from common import py_trees, Status, Obj, Label, val_str, val_parse, err_kind
 
 Blackboard = py_trees.blackboard.Blackboard
 Client = py_trees.blackboard.Client
@@ -20,6 +20,8 @@ def rec_val(v, present):
         return "-"
     if isinstance(v, Obj):
         return "o"
+    if isinstance(v, Label):
+        return "l"      # mutable like an Obj: the record holds a reference, so only the kind is compared
     return val_str(v)
 
 
